@@ -208,6 +208,71 @@ impl Evidence {
     }
 }
 
+impl Evidence {
+    pub fn to_json(&self) -> Value {
+        json!({
+            "evaluations": self.evaluations,
+            "classes": self.classes,
+            "samples": self.samples,
+            "counters": self.counters,
+            "sets": self.sets.iter().map(|(k, v)| (k.clone(), v.iter().cloned().collect::<Vec<_>>())).collect::<BTreeMap<_, _>>(),
+            "maxima": self.maxima,
+            "violations": self.violations.iter().map(|v| json!({"sig": v.sig, "what": v.what, "replay": v.replay})).collect::<Vec<_>>(),
+            "inconclusive": self.inconclusive,
+        })
+    }
+
+    pub fn from_json(v: &Value) -> Evidence {
+        let mut e = Evidence::new();
+        e.evaluations = v["evaluations"].as_u64().unwrap_or(0);
+        if let Some(m) = v["classes"].as_object() {
+            for (k, x) in m {
+                e.classes.insert(k.clone(), x.as_u64().unwrap_or(0));
+            }
+        }
+        if let Some(a) = v["samples"].as_array() {
+            e.samples = a.clone();
+        }
+        if let Some(m) = v["counters"].as_object() {
+            for (k, x) in m {
+                e.counters.insert(k.clone(), x.as_u64().unwrap_or(0));
+            }
+        }
+        if let Some(m) = v["maxima"].as_object() {
+            for (k, x) in m {
+                e.maxima.insert(k.clone(), x.as_u64().unwrap_or(0));
+            }
+        }
+        if let Some(m) = v["sets"].as_object() {
+            for (k, x) in m {
+                let s = e.sets.entry(k.clone()).or_default();
+                for i in x.as_array().cloned().unwrap_or_default() {
+                    if let Some(t) = i.as_str() {
+                        s.insert(t.to_string());
+                    }
+                }
+            }
+        }
+        if let Some(a) = v["violations"].as_array() {
+            for x in a {
+                e.violations.push(Violation {
+                    sig: x["sig"].as_str().unwrap_or("?").to_string(),
+                    what: x["what"].as_str().unwrap_or("").to_string(),
+                    replay: x["replay"].clone(),
+                });
+            }
+        }
+        if let Some(a) = v["inconclusive"].as_array() {
+            for x in a {
+                if let Some(t) = x.as_str() {
+                    e.inconclusive.push(t.to_string());
+                }
+            }
+        }
+        e
+    }
+}
+
 pub struct Meta {
     pub property_id: &'static str,
     pub level: &'static str,
